@@ -87,6 +87,7 @@ type Oblig struct {
 	Func    string
 	File    string
 	Confirmed string
+	GoalFree string // the clause over unconstrained result constants $free_res_i (see finish)
 }
 
 type loopInfo struct {
@@ -143,6 +144,7 @@ type VC struct {
 	assertDone    map[string]bool
 	crossAssumed  map[string]bool
 	epoch         int
+	freeResults   []SVal
 }
 
 type debugBinding struct {
